@@ -119,6 +119,7 @@ func wireLevel(run *ev.Run, set *bridge.Set, rng *rand.Rand, perMethod int) {
 				}
 				if isPatch {
 					// (3) a partial update touching an excluded field must fail on the client before anything is sent
+					var setOfParent []string
 					touch := func(p *bridge.Patch) {
 						e := exclPaths[i%len(exclPaths)]
 						f := e[0]
@@ -146,6 +147,20 @@ func wireLevel(run *ev.Run, set *bridge.Set, rng *rand.Rand, perMethod int) {
 							delete(p.Nested, f)
 							delete(p.Delete, f)
 							p.Set[f] = g.Value(fld.Type, 1)
+						case len(e) > 1 && (i/len(exclPaths))%2 == 1:
+							// the excluded sub-field inside a $set of its whole parent record: like an update, the client may
+							// leave it out, but it must not transmit it
+							_, ftd := model.Resolve(s, fld.Type)
+							parent := g.Value(fld.Type, 1)
+							for _, x := range s.AllFields(ftd) {
+								if x.Name == e[1] {
+									parent.Fields[x.Name] = g.Value(x.Type, 1)
+								}
+							}
+							delete(p.Nested, f)
+							delete(p.Delete, f)
+							p.Set[f] = parent
+							setOfParent = e
 						default:
 							_, ftd := model.Resolve(s, fld.Type)
 							np := bridge.NewPatch()
@@ -179,6 +194,11 @@ func wireLevel(run *ev.Run, set *bridge.Set, rng *rand.Rand, perMethod int) {
 					}
 					desc["client_result"] = got.Show()
 					switch {
+					case setOfParent != nil && len(wire) == 1 && !strings.Contains(wire[0].Body, `"`+setOfParent[1]+`":`):
+						// sent without the excluded sub-field (the occurrence test is textual: sub-field names of the kitchen
+						// sink annotations - "at" - do not occur elsewhere in these bodies)
+						run.Count("wire.set_of_parent_pruned", 1)
+						run.Distinct("wire|patch-set-of-parent|" + res.Namespace + "|" + m.Name)
 					case len(wire) != 0:
 						desc["request_body"] = trunc(wire[0].Body)
 						run.Violation(GENERATION+"/wire/"+m.Name+"/patch-touching-excluded-field-was-sent", desc)
@@ -345,6 +365,12 @@ func rawRequest(set *bridge.Set, ep *rig.Endpoint, res *corpus.Resource, m *corp
 		_, ftd := model.Resolve(s, fld.Type)
 		for _, x := range s.AllFields(ftd) {
 			if x.Name == p[1] {
+				if rng.Intn(2) == 0 {
+					// the excluded sub-field travels inside a $set of its whole parent record
+					parent := g.Value(fld.Type, 1)
+					parent.Fields[p[1]] = g.Value(x.Type, 1)
+					return map[string]any{"patch": map[string]any{"$set": map[string]any{p[0]: refcodec.ToTree(s, fld.Type, parent)}}}
+				}
 				return map[string]any{"patch": map[string]any{p[0]: map[string]any{"$set": map[string]any{p[1]: refcodec.ToTree(s, x.Type, g.Value(x.Type, 1))}}}}
 			}
 		}
